@@ -123,6 +123,41 @@ def build_pair(ctx, env, kind, choice, mixed, n=2):
     return A, B
 
 
+def builder_system(ctx, env, kind, choice):
+    """objects of a small system made with a builder class: kind in video / web / genai (service + service job, mixed with a
+    plain job where the server allows it) or cloud (BoaviztaCloudServer with a plain job)"""
+    if kind == "cloud":
+        from efootprint.builders.hardware.boavizta_cloud_server import BoaviztaCloudServer
+        st = Storage.from_defaults("st")
+        srv = BoaviztaCloudServer.from_defaults("srv", provider=SourceObject(choice[0]), instance_type=SourceObject(choice[1]),
+                                                server_type=ServerTypes.autoscaling(), storage=st)
+        job = Job("pjob", server=srv, **{p: sv(env, f"pjob.{p}", d, un) for p, d, un in M.PARAMS["job"]})
+        A = dict(srv=srv, st=st, pjob=job, **usage_side(env, [job]))
+        A["system"] = System("system", [A["up"]])
+        return A
+    A, _B = build_pair(ctx, env, kind, choice, mixed=(kind != "genai"))
+    for j in A["step"].jobs:
+        if j.name == "pjob":
+            A["pjob"] = j
+    if kind == "genai":
+        ctx.assume(V.quantity_base(A["sjob"].request_duration.value)[1] <= 7200)
+    return A
+
+
+BUILDER_CASES = [("video", "1080p (1920 x 1080)"), ("web", ["php-symfony", "default"]), ("genai", ["mistralai", "open-mistral-7b"]),
+                 ("cloud", ["scaleway", "ent1-s"])]
+BUILDER_EDITS = {"video": ("sjob", "refresh_rate", "1/s", (1, 240, (24, 60))), "web": ("sjob", "data_transferred", "MB", (0, 10 ** 4, (1, 10))),
+                 "genai": ("sjob", "output_token_count", "dimensionless", (1, 10 ** 5, (100, 5000))),
+                 "cloud": ("pjob", "ram_needed", "MB", (0, 10 ** 4, (10, 500)))}
+
+
+def builder_env(ctx, kind):
+    if kind == "cloud":
+        return M.Env(ctx, symbolic={f"up.starts[{i}]": dict(lo=0, hi=1000, nice=(1, 40)) for i in range(2)} |
+                     {"pjob.ram_needed": dict(lo=0, hi=10 ** 4, nice=(10, 500)), "pjob.data_transferred": dict(lo=0, hi=10 ** 4, nice=(10, 500))})
+    return M.Env(ctx, symbolic=sym_for(kind))
+
+
 def _plain_gpu_job(sjob, server):
     from efootprint.core.usage.job import JobBase
 
